@@ -22,6 +22,9 @@ def run(ctx):
     for k in range(4):
         jobs.append((binary, hooks, seeds[42 + k], (2000, 500, 5000, 0)[k] if hooks else 0, (None, 4, None, 2)[k],
                      "stormpw" if k == 2 else None, 30 if ctx.quick else 200, ctx.quick, ["claim", "claim", "claim", "rename"]))
+    # W13: many writers of one channel attribute
+    jobs.append((binary, hooks, seeds[37], 0, None, None, 25 if ctx.quick else 200, ctx.quick, ["settings"]))
+    jobs.append((binary, hooks, seeds[36], 2000 if hooks else 0, 2, None, 15 if ctx.quick else 100, ctx.quick, ["settings"]))
     # W12: PRIVMSG's activity update under lock contention (3 s of idling per round)
     jobs.append((binary, hooks, seeds[39], 0, None, None, 2 if ctx.quick else 8, ctx.quick, ["idle"]))
     jobs.append((binary, hooks, seeds[38], 0, 2, None, 2 if ctx.quick else 8, ctx.quick, ["idle"]))
